@@ -1106,6 +1106,7 @@ class Exec(ExprMixin, CallMixin):
 
     def _run_loop_body(self, node, st, env0, cond_fn, step_fn, ordn, lc, out):
         self.take_exits(out)
+        entry_snapshot = st.copy()
         # 1. invariant holds on entry
         self.check_inv(lc, st, st, 'inv-init', 'loop%d' % ordn, env0(st), 'entry')
         # 2. havoc
@@ -1188,6 +1189,13 @@ class Exec(ExprMixin, CallMixin):
             else:
                 normals.append(exit_st)
         normals = [x for x in normals if x is not None]
+        if getattr(lc, 'at_exit', None):
+            self.entry_stack = getattr(self, 'entry_stack', []) + [entry_snapshot]
+            try:
+                for x in normals:
+                    self.use_lemmas(lc.at_exit, x, env0(x), 'loop%d-exit' % ordn)
+            finally:
+                self.entry_stack = self.entry_stack[:-1]
         if 1 < len(normals) <= 3 and getattr(self.c, 'heap_consts', False):
             # few ways out of the loop (exhaustion, breaks): keep them apart, each continuation is simpler than the merged one
             out.normals = normals
